@@ -4,18 +4,19 @@ run all quick checks, and record the alarms in its meta.json (alarms_final). Pri
 import json, os, subprocess, sys
 VERIF = os.path.dirname(os.path.dirname(os.path.abspath(__file__)))
 PROPS = [json.loads(l)["id"] for l in open(os.path.join(VERIF, "properties.jsonl"))]
+ROOT = os.environ.get("VERIF_MATRIX_ROOT", "/repo")      # a scratch git checkout of /repo HEAD may stand in (checks run with --root)
 def sh(c, cwd=None):
     r = subprocess.run(c, shell=True, cwd=cwd, stdout=subprocess.PIPE, stderr=subprocess.STDOUT, text=True)
     return r.returncode, r.stdout
 only = sys.argv[1:]
-assert not sh("git status --short", "/repo")[1].strip(), "/repo not clean"
+assert not sh("git status --short", ROOT)[1].strip(), ROOT + " not clean"
 for sid in sorted(os.listdir(os.path.join(VERIF, "seeded")), key=lambda s: (len(s), s)):
     d = os.path.join(VERIF, "seeded", sid)
     if not sid.startswith("neutral-") or (only and sid not in only):
         continue
     mp = os.path.join(d, "meta.json")
     meta = json.load(open(mp)) if os.path.exists(mp) else {"id": sid}
-    rc, out = sh(f"git apply {d}/patch.diff", "/repo")
+    rc, out = sh(f"git apply {d}/patch.diff", ROOT)
     alarms = {}
     try:
         if rc != 0:
@@ -24,13 +25,13 @@ for sid in sorted(os.listdir(os.path.join(VERIF, "seeded")), key=lambda s: (len(
         else:
             meta["applies_to_repo_head"] = True
             for p in PROPS:
-                rc, o = sh(f"./check {p} --tier quick", VERIF)
+                rc, o = sh(f"./check {p} --tier quick --root {ROOT}", VERIF)
                 if rc != 0:
                     alarms[p] = [l.strip()[:300] for l in o.splitlines() if l.startswith("  rule") or l.startswith("CHECK-BROKEN")][:6]
     finally:
-        sh("git checkout -- .", "/repo")
-        sh("git clean -fdq crates", "/repo")
+        sh("git checkout -- .", ROOT)
+        sh("git clean -fdq crates", ROOT)
     meta["alarms_final"] = alarms
     json.dump(meta, open(mp, "w"), indent=1)
     print(sid, "silent" if not alarms else "ALARMS " + json.dumps({p: len(v) for p, v in alarms.items()}))
-assert not sh("git status --short", "/repo")[1].strip(), "/repo not restored"
+assert not sh("git status --short", ROOT)[1].strip(), ROOT + " not restored"
